@@ -20,7 +20,7 @@ RULE = (
     "calls agree).  distinct_nontrivial counts dictionaries whose plain base64 contained '+', '/' or '=' (the substitutions were "
     "exercised)."
 )
-ASSUME = ["only JSON-native dictionaries are generated (string keys, no NaN/inf): nothing else round-trips through JSON itself"]
+ASSUME = ["only dictionaries that Python's json module serialises and that compare equal to themselves are generated (string keys; infinities included, NaN excluded because NaN != NaN)"]
 
 SIGMA = ["a", "7", " ", "\n", '"', "\\", "é", "€", "\U0001F680"]
 URLSAFE = re.compile(r"^[A-Za-z0-9_-]*$")
@@ -114,6 +114,9 @@ def build_cases(tier):
         {"": "", " ": " ", "é": "€", "k" * 300: "v" * 3000},
         {"modules": {"": "from library import a\n", "a": "def f():\n    pass\n"}, "code": "\t\r\n"},
         {"code": "퟿�"},
+        # Python's json module serialises infinities by default and they compare equal after the round trip (NaN does not)
+        {"code": "x", "limit": float("inf")},
+        {"values": [1.5, float("-inf"), float("inf")], "nested": {"a": [float("inf")]}},
     ]
     cases.append({"family": "NESTED", "dicts": nested, "key": common.hkey("N")})
     return cases
